@@ -51,7 +51,7 @@ impl Streams {
     }
 }
 
-/// Sanity-test switch (never set by ./check): `C34_PLANT=m2o` makes the harness behave as if
+/// Sanity-test switch (never set by ./check; values can be combined, e.g. `m2o,variant`): `C34_PLANT=m2o` makes the harness behave as if
 /// mask_to_offset_ranges lost its last range on multi-segment sequences; `C34_PLANT=variant` records
 /// SortedArray results of from_slice as Array (same ids, wrong representation).
 pub fn plant() -> Option<String> {
@@ -76,7 +76,7 @@ fn opt_n(x: Option<u64>) -> String {
 pub fn case_build(sink: &mut Sink, st: &mut Streams, kind: &str, l: &[u64]) -> Option<Sg> {
     let r = catch(|| U64Segment::from_slice(l));
     let mut mirrored: Result<Result<Sg, String>, bool> = r.as_ref().map(Sg::of_real).map_err(|e| *e);
-    if plant().as_deref() == Some("variant") {
+    if plant().map_or(false, |p| p.contains("variant")) {
         if let Ok(Ok(Sg::Sorted(a))) = &mirrored {
             mirrored = Ok(Ok(Sg::Array(a.clone())));
         }
@@ -404,7 +404,7 @@ pub fn case_seqop(sink: &mut Sink, st: &mut Streams, q: &[Sg], op: &SeqOp, pre: 
         SeqOp::MaskToOffsets(a, b) => {
             let m = build_mask(a, b);
             let mut rs: Vec<(u64, u64)> = real.mask_to_offset_ranges(&m).into_iter().map(|r| (r.start, r.end)).collect();
-            if plant().as_deref() == Some("m2o") && q.len() > 1 {
+            if plant().map_or(false, |p| p.contains("m2o")) && q.len() > 1 {
                 rs.pop();
             }
             Ok(SeqRes::Ranges(rs))
@@ -888,5 +888,5 @@ pub fn run(args: &Args, sink: &mut Sink, st: &mut Streams) {
     }
     exhaustive_subsets(sink, st, sorted_n, &transforms);
     st.random_phase = true;
-    random(sink, st, &mut rng, args.vol(120, 3000), args.vol(50, 1500), args.vol(100, 300) as u64);
+    random(sink, st, &mut rng, args.vol(120, 1500), args.vol(50, 600), args.vol(100, 250) as u64);
 }
